@@ -126,7 +126,6 @@ func LoadProgram(repoDir, specDir string) (*Program, error) {
 	return p, nil
 }
 
-
 var reDeclareConst = regexp.MustCompile(`^\(declare-const\s+(\S+)\s+(.+)\)\s*$`)
 var reDefineFun = regexp.MustCompile(`^\(define-fun(?:-rec)?\s+(\S+)\s+\(`)
 
@@ -416,20 +415,15 @@ func (p *Program) funcValueCandidates(sig *types.Signature) []*ssa.Function {
 			// bound closures: signature of the closure (without free vars) equals fn.Signature
 			return
 		}
+		if !p.inModule(fn) {
+			return // closed world: only functions of this module are ever stored in its function-typed values
+		}
 		seen[fn] = true
 		out = append(out, fn)
 	}
 	for fn := range p.allFuncs {
-		pk := fn.Pkg
-		if pk == nil && fn.Origin() != nil {
-			pk = fn.Origin().Pkg
-		}
-		if pk == nil || !strings.HasPrefix(pk.Pkg.Path(), modPath) {
-			if fn.Synthetic == "" || fn.Pkg != nil {
-				if pk == nil || !strings.HasPrefix(pk.Pkg.Path(), modPath) {
-					continue
-				}
-			}
+		if !p.inModule(fn) {
+			continue
 		}
 		for _, b := range fn.Blocks {
 			for _, in := range b.Instrs {
@@ -688,7 +682,7 @@ func (p *Program) compSortByName(vc *VC, comp string) string {
 	}
 	if strings.HasPrefix(comp, "E ") {
 		switch comp[2:] {
-		case "byte", "uint8", "int", "uint", "rune", "int32":
+		case "byte", "uint8", "int", "uint", "rune", "int32", "int64", "uint64":
 			return "(Array Int (Array Int Int))"
 		case "string":
 			return "(Array Int (Array Int Str))"
@@ -775,4 +769,106 @@ func (p *Program) ghostField(t types.Type, field string) *GhostField {
 		}
 	}
 	return nil
+}
+
+// globalWrittenOutsideInit: "" if the package-level variable g (and, conservatively, anything reached
+// through a value loaded from it) is only read outside the package initialiser.
+func (p *Program) globalWrittenOutsideInit(g *ssa.Global) string {
+	for fn := range p.allFuncs {
+		if fn.Pkg == g.Pkg && fn.Name() == "init" && fn.Synthetic != "" {
+			continue
+		}
+		for _, b := range fn.Blocks {
+			for _, in := range b.Instrs {
+				if st, ok := in.(*ssa.Store); ok && st.Addr == ssa.Value(g) {
+					return "stored in " + fn.String()
+				}
+				ld, ok := in.(*ssa.UnOp)
+				if !ok || ld.X != ssa.Value(g) {
+					if c, ok := in.(ssa.CallInstruction); ok {
+						for _, a := range c.Common().Args {
+							if a == ssa.Value(g) {
+								return "address passed to a call in " + fn.String()
+							}
+						}
+					}
+					continue
+				}
+				// every use of the loaded value must be a read
+				var check func(v ssa.Value, depth int) string
+				check = func(v ssa.Value, depth int) string {
+					if depth > 6 || v.Referrers() == nil {
+						return ""
+					}
+					for _, u := range *v.Referrers() {
+						switch t := u.(type) {
+						case *ssa.Lookup, *ssa.Range, *ssa.Next, *ssa.Extract, *ssa.Index, *ssa.DebugRef:
+							if uv, ok := u.(ssa.Value); ok {
+								if why := check(uv, depth+1); why != "" {
+									return why
+								}
+							}
+						case *ssa.IndexAddr:
+							for _, u2 := range *t.Referrers() {
+								if st, ok := u2.(*ssa.Store); ok && st.Addr == ssa.Value(t) {
+									return "element stored in " + fn.String()
+								}
+							}
+						case *ssa.UnOp, *ssa.BinOp, *ssa.If, *ssa.Phi:
+						case *ssa.Store:
+							if t.Addr == v {
+								return "written through in " + fn.String()
+							}
+							// stored into a local: follow the local's loads
+							if a, ok := t.Addr.(*ssa.Alloc); ok && !a.Heap {
+								for _, u3 := range *a.Referrers() {
+									if l3, ok := u3.(*ssa.UnOp); ok {
+										if why := check(l3, depth+1); why != "" {
+											return why
+										}
+									}
+								}
+							} else {
+								return "escapes in " + fn.String()
+							}
+						case *ssa.MapUpdate:
+							if t.Map == v {
+								return "map entry assigned in " + fn.String()
+							}
+						case ssa.CallInstruction:
+							cc := t.Common()
+							if bi, ok := cc.Value.(*ssa.Builtin); ok && (bi.Name() == "len" || bi.Name() == "cap") {
+								continue
+							}
+							return "passed to a call in " + fn.String()
+						default:
+							return fmt.Sprintf("used by %T in %s", u, fn.String())
+						}
+					}
+					return ""
+				}
+				if why := check(ld, 0); why != "" {
+					return why
+				}
+			}
+		}
+	}
+	return ""
+}
+
+// inModule: the function belongs to the module under verification (directly, as a generic instance,
+// as a synthetic wrapper of one of its methods, or as a function literal nested in one of those).
+func (p *Program) inModule(fn *ssa.Function) bool {
+	for f := fn; f != nil; f = f.Parent() {
+		if f.Pkg != nil {
+			return strings.HasPrefix(f.Pkg.Pkg.Path(), modPath)
+		}
+		if f.Origin() != nil && f.Origin().Pkg != nil {
+			return strings.HasPrefix(f.Origin().Pkg.Pkg.Path(), modPath)
+		}
+		if f.Object() != nil && f.Object().Pkg() != nil {
+			return strings.HasPrefix(f.Object().Pkg().Path(), modPath)
+		}
+	}
+	return false
 }
